@@ -132,6 +132,8 @@ def _same(a, b):
             return np.array_equal(np.asarray(a), np.asarray(b), equal_nan=True)
         except Exception:
             return False
+    if isinstance(a, (float, np.floating)) and isinstance(b, (float, np.floating)):
+        return bool(a == b) or (np.isnan(a) and np.isnan(b))
     try:
         return bool(a == b)
     except Exception:
